@@ -213,10 +213,12 @@ func redactCommand(cmd *orderedmap.OrderedMap[string, any], shouldEagerRedact bo
 	}
 }
 
-var planSummaryIndexClause = regexp.MustCompile(`IXSCAN\s*\{[^}]+\}`)
+// every plan stage that prints the key pattern of its index: IXSCAN, COUNT_SCAN, DISTINCT_SCAN,
+// EXPRESS_IXSCAN, ...
+var planSummaryIndexClause = regexp.MustCompile(`[A-Z][A-Z0-9_]*\s*\{[^}]+\}`)
 
-// redactFieldNamesFromPlanSummary replaces the index-key names inside every "IXSCAN { ... }"
-// clause by their pseudonyms. Only the key tokens are rewritten (never other text that happens
+// redactFieldNamesFromPlanSummary replaces the index-key names inside every "<STAGE> { ... }"
+// clause (IXSCAN { a: 1 }, COUNT_SCAN { a: 1 }, DISTINCT_SCAN { a: 1, b: 1 }) by their pseudonyms. Only the key tokens are rewritten (never other text that happens
 // to contain a field name, such as the IXSCAN keyword or an already inserted pseudonym).
 func redactFieldNamesFromPlanSummary(planSummary string) string {
 	return planSummaryIndexClause.ReplaceAllStringFunc(planSummary, func(clause string) string {
